@@ -40,6 +40,9 @@ const (
 // ErrNotDirectory occurs when root path for VirtualISO is not a directory
 var ErrNotDirectory = fmt.Errorf("not a directory")
 
+// ErrSpecialFile occurs on attempt to open something that is not a regular file or directory (named pipe, device, ...)
+var ErrSpecialFile = fmt.Errorf("not a regular file or directory")
+
 // ErrTooLarge occurs when directory content doesn't fit to ISO image (about 4TiB)
 var ErrTooLarge = fmt.Errorf("too large for an image")
 
@@ -155,6 +158,10 @@ func (viso *VirtualISO) init() error {
 }
 
 func (viso *VirtualISO) getTitleID() (string, error) {
+	if err := checkNotSpecial(viso.fs, filepath.Join(viso.root, paramSFOPath)); err != nil {
+		return "", fmt.Errorf("param.sfo open failed: %w", err)
+	}
+
 	f, err := viso.fs.Open(filepath.Join(viso.root, paramSFOPath))
 	if err != nil {
 		return "", fmt.Errorf("param.sfo open failed: %w", err)
